@@ -1,6 +1,6 @@
 (* C01/Proofs.v — first matching categorizing rule decides; proofs over Engine/Model.v for all oracles. *)
 From Coq Require Import String Ascii List Bool ZArith Arith Lia.
-From Tally Require Import Lib.Str Engine.StrLib Gen.C01IsExpr Engine.Model Engine.Lemmas.
+From Tally Require Import Lib.Str Engine.StrLib Gen.C01IsExpr Engine.CaseMap Engine.Model Engine.Lemmas.
 Import ListNotations.
 Open Scope string_scope.
 
@@ -232,14 +232,14 @@ Lemma normalize_legacy_first_match : forall tf lo_at rules amount date tfs t0 m 
   normalize_legacy tf lo_at rules amount date tfs t0 = NRes m c s i ->
   let t := apply_transforms tf tfs t0 in
   let lo := lo_at (t_desc t) (t_fields t) in
-  match find (lcat_match lo (upper (t_desc t)) amount date) rules with
+  match find (lcat_match lo (py_upper (t_desc t)) amount date) rules with
   | Some w => m = l_merchant w /\ c = l_category w /\ s = l_subcategory w
   | None => m = extract_name (t_desc t) /\ c = "Unknown" /\ s = "Unknown"
   end.
 Proof.
   intros tf lo_at rules amount date tfs t0 m c s i H t lo. unfold normalize_legacy in H. fold t in H. fold lo in H.
-  destruct (lrun lo (upper (t_desc t)) amount date lst0 rules) as [st|] eqn:E; [|discriminate].
-  rewrite <- (legacy_first_match lo (upper (t_desc t)) amount date rules st E).
+  destruct (lrun lo (py_upper (t_desc t)) amount date lst0 rules) as [st|] eqn:E; [|discriminate].
+  rewrite <- (legacy_first_match lo (py_upper (t_desc t)) amount date rules st E).
   destruct (ls_first st) as [w|].
   - injection H as <- <- <- _. auto.
   - apply unknown_result_mcs in H. exact H.
@@ -247,7 +247,7 @@ Qed.
 
 Lemma normalize_legacy_irrelevance : forall tf lo_at pre r post amount date tfs t0,
   (let t := apply_transforms tf tfs t0 in
-   lout_of (lo_at (t_desc t) (t_fields t)) (upper (t_desc t)) amount date r = LNo) ->
+   lout_of (lo_at (t_desc t) (t_fields t)) (py_upper (t_desc t)) amount date r = LNo) ->
   normalize_legacy tf lo_at (pre ++ r :: post)%list amount date tfs t0 =
   normalize_legacy tf lo_at (pre ++ post)%list amount date tfs t0.
 Proof.
@@ -258,7 +258,7 @@ Qed.
 Lemma normalize_legacy_later_rules : forall tf lo_at rules post amount date tfs t0 m c s i m' c' s' i',
   normalize_legacy tf lo_at rules amount date tfs t0 = NRes m c s i ->
   (let t := apply_transforms tf tfs t0 in
-   find (lcat_match (lo_at (t_desc t) (t_fields t)) (upper (t_desc t)) amount date) rules <> None) ->
+   find (lcat_match (lo_at (t_desc t) (t_fields t)) (py_upper (t_desc t)) amount date) rules <> None) ->
   normalize_legacy tf lo_at (rules ++ post)%list amount date tfs t0 = NRes m' c' s' i' ->
   m' = m /\ c' = c /\ s' = s.
 Proof.
@@ -286,4 +286,43 @@ Definition f1_oracle : loracle :=
 Lemma legacy_condition_is_regex_refuted : ~ legacy_condition_is_regex_statement.
 Proof.
   intros H. specialize (H f1_oracle "UBER TRIP" None None f1_rule [] eq_refl). vm_compute in H. discriminate.
+Qed.
+
+(* ------------------------------------------------------------------------------------------------- *)
+(* the legacy loop consults the regex oracle ONLY at the upper-cased (Python str.upper) transformed description *)
+Lemma lresolve_tags_ext : forall lo1 lo2 r raws,
+  (forall e, lo_dyn lo1 r e = lo_dyn lo2 r e) -> lresolve_tags lo1 r raws = lresolve_tags lo2 r raws.
+Proof.
+  intros lo1 lo2 r raws H. induction raws as [|x rest IH]; [reflexivity|].
+  cbn [lresolve_tags]. unfold lresolve_tag. rewrite H, IH. reflexivity.
+Qed.
+
+Lemma l_outcome_ext : forall lo1 lo2 du amount date r,
+  (forall p, lo_search lo1 p du = lo_search lo2 p du) -> lo_expr lo1 r = lo_expr lo2 r ->
+  (forall e, lo_dyn lo1 r e = lo_dyn lo2 r e) ->
+  l_outcome lo1 du amount date r = l_outcome lo2 du amount date r.
+Proof.
+  intros lo1 lo2 du amount date r Hs He Hd. unfold l_outcome.
+  rewrite Hs, He, (lresolve_tags_ext lo1 lo2 r (l_tags r) Hd). reflexivity.
+Qed.
+
+Lemma lrun_ext : forall lo1 lo2 du amount date rules s,
+  (forall p, lo_search lo1 p du = lo_search lo2 p du) -> (forall r, lo_expr lo1 r = lo_expr lo2 r) ->
+  (forall r e, lo_dyn lo1 r e = lo_dyn lo2 r e) ->
+  lrun lo1 du amount date s rules = lrun lo2 du amount date s rules.
+Proof.
+  intros lo1 lo2 du amount date rules. induction rules as [|r rest IH]; intros s Hs He Hd; [reflexivity|].
+  cbn [lrun]. unfold lstep. rewrite (l_outcome_ext lo1 lo2 du amount date r Hs (He r) (Hd r)).
+  destruct (l_outcome lo2 du amount date r); auto.
+Qed.
+
+Lemma legacy_subject_is_upper_cased_description : forall tf lo_at1 lo_at2 rules amount date tfs t0,
+  (let t := apply_transforms tf tfs t0 in
+   let lo1 := lo_at1 (t_desc t) (t_fields t) in let lo2 := lo_at2 (t_desc t) (t_fields t) in
+   (forall p, lo_search lo1 p (py_upper (t_desc t)) = lo_search lo2 p (py_upper (t_desc t))) /\
+   (forall r, lo_expr lo1 r = lo_expr lo2 r) /\ (forall r e, lo_dyn lo1 r e = lo_dyn lo2 r e)) ->
+  normalize_legacy tf lo_at1 rules amount date tfs t0 = normalize_legacy tf lo_at2 rules amount date tfs t0.
+Proof.
+  intros tf lo_at1 lo_at2 rules amount date tfs t0 H. cbv zeta in H. destruct H as (Hs & He & Hd).
+  unfold normalize_legacy. rewrite (lrun_ext _ _ _ amount date rules lst0 Hs He Hd). reflexivity.
 Qed.
